@@ -201,6 +201,8 @@ class Workspace(AbstractContextManager):
                     self.update_attribute(entity, "concatenated_attributes")
 
             self._io_call(H5Writer.save_entity, self.root, add_children=True, mode="r+")
+            # project attributes (version, distance unit, contributors) assigned since opening
+            self._io_call(H5Writer.write_attributes, self, mode="r+")
 
         self.geoh5.close()
 
